@@ -1,12 +1,12 @@
 import Flodym.Driver.NpCmds
+import Flodym.Driver.DsmCmds
 open Flodym.Driver
 
-def step (s : Store) (line : String) : Store × String :=
-  let toks := tokens line
-  match toks with
-  | [] => (s, "")
-  | "case" :: rest => ({}, "case " ++ " ".intercalate rest)
-  | _ =>
+structure St where
+  store : Store := {}
+  dsm : DsmState := {}
+
+def stepA (s : Store) (toks : List String) : Store × String :=
     match arrayStep s toks with
     | some r => r
     | none =>
@@ -20,7 +20,17 @@ def step (s : Store) (line : String) : Store × String :=
     | some r => r
     | none => (s, "bad-op")
 
-partial def loop (h : IO.FS.Stream) (out : IO.FS.Stream) (s : Store) : IO Unit := do
+def step (s : St) (line : String) : St × String :=
+  let toks := tokens line
+  match toks with
+  | [] => (s, "")
+  | "case" :: rest => ({}, "case " ++ " ".intercalate rest)
+  | _ =>
+    match dsmStep s.dsm toks with
+    | some (d, o) => ({ s with dsm := d }, o)
+    | none => let (st, o) := stepA s.store toks; ({ s with store := st }, o)
+
+partial def loop (h : IO.FS.Stream) (out : IO.FS.Stream) (s : St) : IO Unit := do
   let line ← h.getLine
   if line.isEmpty then return ()
   let (s', o) := step s line
